@@ -271,7 +271,9 @@ class FuncV(object):
 
     @property
     def key(self):
-        return (self.module.name, self.qualname)
+        # a function that was MOVED to another module keeps the key its
+        # contract was written for (set by Interp.lookup when it finds it)
+        return getattr(self, 'key_alias', None) or (self.module.name, self.qualname)
 
     def __repr__(self):
         return '<function %s.%s>' % (self.module.name, self.qualname)
